@@ -130,7 +130,7 @@ func consumeBareInnerList(s string, f func(bareItem, param string)) (consumed, r
 	rest = s[1:]
 	for len(rest) != 0 {
 		var bareItem, param string
-		rest = rest[countLeftWhitespace(rest):]
+		rest = strings.TrimLeft(rest, " ")
 		if len(rest) != 0 && rest[0] == ')' {
 			rest = rest[1:]
 			return s[:len(s)-len(rest)], rest, true
